@@ -90,7 +90,7 @@ type Driver struct {
 	Progress *int64
 	phase    string
 	States   map[string]bool
-	auxConns []*AuxConn
+	auxDials int64
 	events   []*Event
 	Trace    []string
 	keepTrace bool
@@ -199,8 +199,9 @@ func (d *Driver) installHooks() {
 	}
 	net.VerifDialContextHook = func(ctx context.Context, network, address string, timeout time.Duration) (net.Conn, error, bool) {
 		n := d.C.Nodes[address]
+		// NB: this hook runs on helper goroutines (pool monitors, refresh goroutine) whose relative order is the Go
+		// scheduler's choice: it must not touch the event log or any shared mutable state.
 		if n == nil || !n.Up || n.AuxMode == "refuse" {
-			d.K.Note("auxdial %s refused", address)
 			return nil, &net.OpError{Op: "dial", Net: "tcp", Err: os.NewSyscallError("connect", syscall.ECONNREFUSED)}, true
 		}
 		ac := newAuxConn(address, func(c *AuxConn) {
@@ -218,16 +219,13 @@ func (d *Driver) installHooks() {
 				}
 				c.wbuf = c.wbuf[m:]
 				c.mu.Unlock()
-				d.K.Note("aux %s cmd %q", c.node, cp[0])
 				if node.AuxMode == "stall" || !node.Up {
 					continue
 				}
 				c.push(d.C.AuxExec(c.node, cp, &c.authed))
 			}
 		})
-		d.auxConns = append(d.auxConns, ac)
-		d.K.Note("auxdial %s ok", address)
-		d.count("aux_dials")
+		atomic.AddInt64(&d.auxDials, 1)
 		return ac, nil, true
 	}
 }
